@@ -186,7 +186,7 @@ macro_rules! pair_all {
         if mine {
             let xs: Vec<V3> = match &$replay {
                 Some((_, lanes)) => lanes.clone(),
-                None => inputs(src, &mut $rng, $ctx.n(300, 30_000)),
+                None => inputs(src, &mut $rng, $ctx.n(300, 100_000)),
             };
             let rp = $replay.is_some();
             let want = |s: &str| $replay.as_ref().map_or(true, |(inst, _)| inst.ends_with(s));
@@ -500,7 +500,7 @@ fn masks(ctx: &Ctx, report: &mut Report) {
         mname,
         "wide::{f32x4, f32x8, f64x2, f64x4}: PartialCmp (lt, lt_eq, gt, gt_eq, eq, neq) + Select + LazySelect + mask and/or/not/xor give, in every lane, what the scalar comparison and `if` give; BoolMask::is_true = all lanes, is_false = no lane, on mixed masks; packing/unpacking is the identity; is_within_bounds on a SIMD colour and on slices of SIMD colours (lanes leaving the bounds at different elements) equals the scalar answers lane by lane; clamp, mix, lighten, darken_fixed, saturate, shift_hue, + and * with lane-wise different factors equal the scalar operator per lane (bit-exact or within a few ulp); distinct = (operation, vector type, mask shape)",
     );
-    let n = ctx.n(4000, 400_000);
+    let n = ctx.n(4000, 2_000_000);
     let res = par(4, |t| {
         let mut m = mon.like();
         let mut rng = ctx.rng(mname, t as u64);
@@ -583,7 +583,7 @@ fn f32_vs_f64(ctx: &Ctx, report: &mut Report) {
             let xs: Vec<V3> = match &replay {
                 Some((_, b)) => vec![[b[0], b[1], b[2]]],
                 None => {
-                    let mut v = inputs(src, &mut rng, ctx.n(150, 15_000));
+                    let mut v = inputs(src, &mut rng, ctx.n(150, 50_000));
                     v.retain(|x| src.in_nominal_range(x));
                     v
                 }
